@@ -16,7 +16,7 @@ PID = "C10"
 TECHNIQUE = "property-based metamorphic testing with generated adversarial (non-equivariant, nonlinear, position-dependent, channel-mixing) inner models: GroupAverage(g.x) == g.GroupAverage(x) for every g of a generated group closed under product; averaging off == inner model bit for bit; Climate1D equator-flip equivariance, exact round trip from1d(to1d(x)) and longitude-flip relation on identifier values"
 RULE = (
     "mode 'average': Hypothesis draws d in {2,3}, a group G out of {B_d, rotations, C2^d, cyclic C4, a single reflection, trivial, pure permutations}, independent input and output signatures (k<=2 for d=2, k<=1 for d=3, pseudo-types, "
-    "drawn order), the four (always_average, inference) flag combinations, square inputs (non-square for groups without axis permutations), mixed torus flags, and an inner model from a family of random maps: "
+    "drawn order), the four (always_average, inference) flag combinations, square and non-square inputs (for axis-permuting groups too: the inner family accepts any extents), mixed torus flags, and an inner model from a family of random maps: "
     "per output type a coordinate-dependent mask, a dense mixing of all input channels and tensor components with a different weight per output component, a bias and a tanh. The inner model's own equivariance defect "
     "must exceed 0.1 (otherwise trivial). Averaging active: wrapper(g.x) == g.wrapper(x) for every g in G (groups above 8 elements: a generating set plus 3 drawn elements; relative 1e-4) with the declared output types; averaging off: wrapper(x) is bit-identical to inner(x). "
     "mode 'climate': (lon,lat) extents 2..6 unequal, past/future steps 1..3, dynamic types from subsets of {(0,0),(0,1),(1,0)} with 1..3 channels in any storage order, 0..2 constant fields per type, a random inner 1-D map. "
@@ -41,13 +41,13 @@ def draw_case(data, tier):
         d = data.draw(st.sampled_from([2, 2, 3]), label="d")
         # |G|^2 inner evaluations per case: the two 24/48-element groups of d=3 are left to the thorough tier
         G = data.draw(st.sampled_from(GROUPS if (d == 2 or tier == "thorough") else ["C2", "C4", "Z2", "triv", "perm"]), label="G")
-        if G in NO_PERM and data.draw(st.booleans(), label="nonsquare"):
+        if data.draw(st.booleans(), label="nonsquare"):
             shape = list(gen.draw_shape(data, d, 2, 4 if d == 2 else 3, classes=("distinct", "free"))[0])
         else:
             n = data.draw(st.integers(2, 4 if d == 2 else 3), label="N")
             shape = [n] * d
         kmax = 2 if d == 2 else 1
-        return {"mode": mode, "d": d, "G": G, "shape": shape, "torus": list(gen.draw_torus(data, d)) if G in NO_PERM else [data.draw(st.booleans(), label="torus")] * d,
+        return {"mode": mode, "d": d, "G": G, "shape": shape, "torus": list(gen.draw_torus(data, d)),
                 "in_sig": gen.draw_signature(data, d, kmax=kmax, min_types=1, max_types=3, cmax=2),
                 "out_sig": gen.draw_signature(data, d, kmax=kmax, min_types=1, max_types=3, cmax=2),
                 "always_average": data.draw(st.booleans(), label="always_average"), "inference": data.draw(st.booleans(), label="inference"),
